@@ -83,6 +83,9 @@ CHECKS = {
  "C17": dict(cat="exploration", tech="controlled-schedule exploration: sys.settrace gate scheduler forcing enumerated and Hypothesis-generated interleavings of two or three API calls at engine function boundaries + 8-thread stress batches; oracle = each call's single-threaded result",
    text="Pairs/triples of API calls (run with different scripts, output formats, viral rules, number configuration, semantic_analysis, prettify, validate_dataset, create_ast) are suspended at 13 engine functions that read or write process-wide state and released in enumerated orders (k steps of one thread, then the other, for every k within the bound; all short alternations) and in generated orders; every call must return exactly what it returns alone and no schedule may hang.",
    note="Interleavings are explored at Python function granularity at the gated functions only; preemption inside native code (DuckDB, parser) is exercised only by the stress batches. A stall is reported as a violation only when a thread is blocked in an engine lock; other stalls are harness errors (exit 2).", ref="§3 C17"),
+ "C28": dict(cat="exploration", tech="Hypothesis-generated (propagation rule, operator class, data) cases against an independent executable model of the stated propagation rules (pair / fold / single / whole-operand / unchanged / rejected) + row-permutation metamorphic relation",
+   text="Aggregate (min max sum avg) and enumerated rule tables (priority chains, random unary/binary tables, with and without default) x 18 operator classes (ds-ds binary, chains and nested forms, unary, ds-scalar, group and whole-dataset aggregation, analytic window, filter/calc/rename, assignment, set operators, inner/left join, no rule) over data with null and conflicting viral values; every determined result datapoint's viral value equals the model, a missing rule is rejected by semantic_analysis, and permuting input rows never changes the result.",
+   note="Enumerated group folds are compared exactly only for rule tables that are associative and commutative (brute force over the value closure); null paired with a value under sum/avg, unmatched left_join rows, intersect/setdiff are only checked for order independence; hierarchy and validation operators are not covered.", ref="§3 C28"),
 }
 NOT_YET = "check not built yet in this session (work in progress, see DESIGN.md §5)"
 
